@@ -358,6 +358,11 @@ static std::string frg_fmt(const std::string &f, Ts... ts) {
 	GuardedBuf g(f.data(), f.size());
 	std::string out;
 	frg::output_to(out) << frg::fmt(frg::string_view(g.data(), f.size()), ts...);
+	// the same through a container that only has push_back (container_logger then appends character by character)
+	std::vector<char> out2;
+	frg::output_to(out2) << frg::fmt(frg::string_view(g.data(), f.size()), ts...);
+	if(std::string(out2.begin(), out2.end()) != out) violation("C19:fmt:container-paths-differ", "fmt(\"" + f + "\") rendered into a std::string gives \"" + out.substr(0, 100) + "\", into a std::vector<char> \"" + std::string(out2.begin(), out2.end()).substr(0, 100) + "\"");
+	count("fmt_specs_rendered_into_two_container_kinds");
 	return out;
 }
 
@@ -435,13 +440,21 @@ struct ChunkRec { std::vector<std::string> *chunks; size_t *limit_violations; si
 	void operator()(const char *msg) { size_t n = strlen(msg); if(n >= limit) (*limit_violations)++; chunks->push_back(std::string(msg, n)); }
 	void finalize(bool done) { *finalized += done ? 1 : 100; } };
 
-template<size_t Limit>
+// the optional members of a logger sink: the logger calls begin() / finalize(done) only where the sink has them
+struct ChunkRecPlain { std::vector<std::string> *chunks; size_t *limit_violations; size_t limit; int *finalized;
+	void operator()(const char *msg) { size_t n = strlen(msg); if(n >= limit) (*limit_violations)++; chunks->push_back(std::string(msg, n)); *finalized = 1; } };
+struct ChunkRecBegin { std::vector<std::string> *chunks; size_t *limit_violations; size_t limit; int *finalized; int begun = 0;
+	void begin() { begun++; if(!chunks->empty()) *finalized += 1000; } // before the first chunk, once
+	void operator()(const char *msg) { size_t n = strlen(msg); if(n >= limit) (*limit_violations)++; if(begun != 1) *finalized += 1000; chunks->push_back(std::string(msg, n)); }
+	void finalize(bool done) { *finalized += done ? 1 : 100; } };
+
+template<size_t Limit, typename Rec = ChunkRec>
 static void logger_case(Rng &r, size_t len, int style) {
 	std::vector<std::string> chunks; size_t lv = 0; int fin = 0;
 	std::string msg;
 	for(size_t i = 0; i < len; i++) msg.push_back((char)('a' + r.below(26)));
 	{
-		frg::stack_buffer_logger<ChunkRec, Limit> logger(ChunkRec{&chunks, &lv, Limit, &fin});
+		frg::stack_buffer_logger<Rec, Limit> logger(Rec{&chunks, &lv, Limit, &fin});
 		auto item = logger();
 		if(style == 0) { for(char ch : msg) item << frg::char_fmt(ch); } // (a plain char streams as its numeric value)
 		else if(style == 1) { item << msg.c_str(); }
@@ -452,7 +465,8 @@ static void logger_case(Rng &r, size_t len, int style) {
 	count("logger_messages");
 	if(cat != msg) violation(strf("C19:logger:lost-or-reordered:limit=%zu", Limit), strf("stack_buffer_logger<%zu>: message of %zu chars arrived as %zu chunks whose concatenation differs (first difference at %zu)", Limit, len, chunks.size(), (size_t)(std::mismatch(cat.begin(), cat.end(), msg.begin(), msg.end()).first - cat.begin())));
 	if(lv) violation(strf("C19:logger:chunk-too-long:limit=%zu", Limit), strf("stack_buffer_logger<%zu> emitted a chunk of length >= Limit", Limit));
-	if(fin != 1) violation(strf("C19:logger:finalize:limit=%zu", Limit), "finalize(done) was not called exactly once with done=true after endlog");
+	if(std::is_same_v<Rec, ChunkRecPlain> && chunks.empty()) fin = 1; // (a sink without finalize() and an empty message: nothing to observe)
+	if(fin != 1) violation(strf("C19:logger:finalize:limit=%zu", Limit), fin >= 1000 ? "begin() was not called exactly once before the first chunk" : "finalize(done) was not called exactly once with done=true after endlog");
 }
 
 static void logger_sweep() {
@@ -462,7 +476,7 @@ static void logger_sweep() {
 	auto run = [&]<size_t L>(std::integral_constant<size_t, L>) {
 		for(size_t len = 0; len <= 3 * L + 2; len++) for(int style = 0; style < 3; style++) {
 			begin_case("logger", idx++);
-			guarded("C19", [&] { logger_case<L>(r, len, style); });
+			guarded("C19", [&] { switch((len + style) % 3) { case 0: logger_case<L>(r, len, style); break; case 1: logger_case<L, ChunkRecPlain>(r, len, style); break; default: logger_case<L, ChunkRecBegin>(r, len, style); break; } });
 			note_distinct(mix(hash_str("logger"), L * 100000 + len * 3 + style));
 		}
 	};
